@@ -73,9 +73,22 @@ def _wrap(target, fn, funcheck, fs):
     return wrapper
 
 
+def _docutils_shim():
+    """The node model's `kind` / `text` / `format` / `id_link` as read-only views of real docutils nodes, so that contract clauses
+    over the model can be evaluated on them."""
+    from docutils import nodes
+
+    nodes.Node.kind = property(lambda self: type(self).__name__)
+    nodes.Node.text = property(lambda self: str(self) if isinstance(self, nodes.Text) else self.astext())
+    nodes.Element.format = property(lambda self: self.get("format"))
+    nodes.Element.id_link = property(lambda self: bool(self.get("id_link", False)))
+
+
 def pytest_configure(config):
     from harness import funcheck
     from pyvc.spec import REG
+
+    _docutils_shim()
 
     funcheck.load_contracts(MODS)
     for target, fs in list(REG.funs.items()):
